@@ -14,8 +14,8 @@ BehaviourExport == Done => PrintT(<<"BEH", ToJson([conf |-> Conf, steps |-> hist
    Omit / Stub / New with RandomElement, one successor per action kind.  The draws are bound by \E over a singleton set:
    TLC re-evaluates a LET inside an action at every reference (each would be a different draw). *)
 Pick(S) == RandomElement(S)
-StubOK(d, p, n) == /\ p # 0 /\ p \in Leaves(tree[d]) /\ p \in DOMAIN want /\ n \in DOMAIN want[p]
-                   /\ n \in DOMAIN atts[d][p] /\ <<d, atts[d][p][n].c>> \in blob
+StubOK(d, p, n) == /\ p # 0 /\ p \in DOMAIN want /\ n \in DOMAIN want[p]
+                   /\ n \in DOMAIN PList(d, p) /\ <<d, PList(d, p)[n].c>> \in blob
 DrawSpec(d, k, p, n) ==
   IF k = "del" THEN 0
   ELSE IF StubOK(d, p, n) = TRUE
